@@ -131,6 +131,32 @@ def main():
                     break
             if not ok:
                 break
+    # the same accessor called with different KEYWORD arguments on one runner, in both orders, against fresh runners
+    from sqllineage.runner import LineageRunner as _LR
+
+    for sql, meta in SCRIPTS[:6]:
+        def fresh():
+            return _LR(sql)
+
+        ref = {
+            "dag": len(fresh().to_cytoscape()),
+            "cdag": len(fresh().to_cytoscape(level="column")),
+            "cols": [[str(c) for c in p] for p in fresh().get_column_lineage()],
+            "cols_nosub": [[str(c) for c in p] for p in fresh().get_column_lineage(exclude_subquery_columns=True)],
+        }
+        calls = {
+            "dag": lambda r: len(r.to_cytoscape()),
+            "cdag": lambda r: len(r.to_cytoscape(level="column")),
+            "cols": lambda r: [[str(c) for c in p] for p in r.get_column_lineage()],
+            "cols_nosub": lambda r: [[str(c) for c in p] for p in r.get_column_lineage(exclude_subquery_columns=True)],
+        }
+        for order in (("dag", "cdag", "dag"), ("cdag", "dag"), ("cols", "cols_nosub", "cols"), ("cols_nosub", "cols")):
+            evals += 1
+            r = fresh()
+            for n in order:
+                if calls[n](r) != ref[n]:
+                    fails.append({"clause": "accessors_can_be_called_in_any_order_any_number_of_times", "sql": sql, "order": list(order), "accessor": n + " (keyword arguments)"})
+                    break
     print(json.dumps({"evaluations": evals, "distinct_nontrivial": len(SCRIPTS) * len(seeds), "violations": fails[:4], "input": fails[0] if fails else None, "seeds": seeds}))
     return 1 if fails else 0
 
